@@ -32,6 +32,9 @@ Findings(l) ==
       F(cond, atom) == IF cond THEN {[l |-> l, kind |-> "hookauth", m |-> r.handler, atom |-> atom, props |-> {"C09"},
                                       cand |-> r.cand, prefix |-> r.prefix, channel |-> r.channel]} ELSE {}
   IN F(r.panic, "panic")
+     \* the configuration the sender is checked against is the one the admin asked for: an accepted update that is not
+     \* (or only partly) installed keeps authenticating the accounts of the OLD channel / prefix / origin
+     \cup F(~r.update_applied, "accepted UpdateConfig did not install the requested channel / prefix / native accounts")
      \cup F(r.accepted /\ ~(r.expected_exists /\ r.is_expected), "accepted a sender that is not the intermediate account")
      \cup F(~r.accepted /\ r.expected_exists /\ r.is_expected, "refused the intermediate account")
 
